@@ -596,7 +596,7 @@ SPACES = {"fixed": WSpace("fixed"), "unlimited": WSpace("unlimited")}
 
 def bfs(tier, ctx):
     for k in ("fixed", "unlimited"):
-        ctx.bfs(k, bounds(tier)["write_program_depth"], time_cap=50 if tier == "quick" else 1200)
+        ctx.bfs(k, bounds(tier)["write_program_depth"], time_cap=300 if tier == "quick" else 2400)
 
 
 def snippet(case):
